@@ -32,6 +32,7 @@ import (
 	"github.com/cube2222/octosql/helpers/graph"
 	"github.com/cube2222/octosql/logical"
 	"github.com/cube2222/octosql/logs"
+	"github.com/cube2222/octosql/octosql"
 	"github.com/cube2222/octosql/optimizer"
 	"github.com/cube2222/octosql/outputs/batch"
 	"github.com/cube2222/octosql/outputs/eager"
@@ -277,16 +278,15 @@ octosql "SELECT * FROM plugins.plugins"`,
 		}
 		var physicalLimitExpression *physical.Expression
 		if outputOptions.Limit != nil {
-			physicalExpr, err := typecheckExpr(ctx, *outputOptions.Limit, env.WithRecordSchema(physicalPlan.Schema), logical.Environment{
+			// The limit is evaluated once, without any record: it can't reference the columns of the query,
+			// and it has to be an Int (just like the limit of a subquery, see logical.OrderSensitiveTransform).
+			physicalExpr, err := typecheckLimitExpr(ctx, *outputOptions.Limit, env, logical.Environment{
 				CommonTableExpressions: map[string]logical.CommonTableExpression{},
 				TableValuedFunctions:   tableValuedFunctions,
-				UniqueVariableNames: &logical.VariableMapping{
-					Mapping: mapping,
-				},
-				UniqueNameGenerator: uniqueNameGenerator,
+				UniqueNameGenerator:    uniqueNameGenerator,
 			})
 			if err != nil {
-				return fmt.Errorf("couldn't typecheck limit expression with index: %w", err)
+				return fmt.Errorf("couldn't typecheck limit expression: %w", err)
 			}
 			physicalLimitExpression = &physicalExpr
 		}
@@ -509,6 +509,22 @@ func typecheckExpr(ctx context.Context, expr logical.Expression, env physical.En
 		ctx,
 		env,
 		logicalEnv,
+	)
+	return physicalExpr, nil
+}
+
+func typecheckLimitExpr(ctx context.Context, expr logical.Expression, env physical.Environment, logicalEnv logical.Environment) (_ physical.Expression, outErr error) {
+	defer func() {
+		if r := recover(); r != nil {
+			outErr = fmt.Errorf("typecheck error: %s", r)
+		}
+	}()
+	physicalExpr := logical.TypecheckExpression(
+		ctx,
+		env,
+		logicalEnv,
+		octosql.Int,
+		expr,
 	)
 	return physicalExpr, nil
 }
